@@ -7,7 +7,10 @@ if [ -n "$(git status --porcelain)" ]; then echo "repo not clean"; exit 3; fi
 git apply "$PATCH" || { echo "patch does not apply"; exit 3; }
 go build ./... >/dev/null 2>&1 || { echo "patched tree does not build"; git checkout -- . ; git clean -fdq; exit 3; }
 cd /verif
-OUT=$(timeout 1800 ./check "$P" "$TIER" 2>&1); RC=$?
+# evidence describes runs against /repo itself: keep the file of the unchanged tree
+cp evidence/$P.json /tmp/evidence_$P.bak 2>/dev/null
+OUT=$(timeout ${SEED_TIMEOUT:-1800} ./check "$P" "$TIER" 2>&1); RC=$?
 echo "$OUT" | grep -E "^VIOLATION|^INCONCLUSIVE|^KNOWN|^SUMMARY" | cut -c1-260 | sort | uniq -c | sort -rn | head -12
 echo "exit=$RC"
+[ -f /tmp/evidence_$P.bak ] && mv /tmp/evidence_$P.bak evidence/$P.json
 git -C /repo checkout -- . ; git -C /repo clean -fdq
